@@ -25,12 +25,12 @@ def ps_axioms(ctx, name="x"):
 class Lemmas(Family):
     name = "lemma"
     qualname = "vf.proofs.lemmas:Lemmas"
-    serves = ["C01", "C02", "C03", "C04", "C05", "C06", "C07", "C08", "C09", "C19"]
+    serves = ["C01", "C02", "C03", "C04", "C05", "C06", "C07", "C08", "C09", "C14", "C15", "C16", "C19"]
     configs = ["int64"]
 
     def kinds(self):
         return ["PS-monotone", "PS-nonneg", "PS-const-on-zeros", "adjacent-sorted=>sorted", "strictly-increasing-selfmap-is-identity",
-                "same-lengths=>same-starts"]
+                "same-lengths=>same-starts", "partition-point"]
 
     def run(self, ctx, kind):
         getattr(self, "lemma_" + kind.replace("-", "_").replace("=>", "_implies_"))(ctx)
@@ -85,6 +85,23 @@ class Lemmas(Family):
         ctx.prove("base", S(0) == S2(0))
         ctx.assume(z3.And(0 <= k, k < n, S(k) == S2(k)))
         ctx.prove("step", S(k + 1) == S2(k + 1))
+
+    def lemma_partition_point(self, ctx):
+        """every flat position j with 0 <= j < S(k) lies in some row r < k:  S(r) <= j < S(r+1).
+        Induction on k with an explicit witness: P(k) is given by a witness function w_k; the witness for k+1 is
+        w_k(j) if j < S(k) else k.  (This is the existence of the ghost functions rho / rowof / run used by the scan proofs.)"""
+        n, S, L = ps_axioms(ctx)
+        k, j = z3.Int("k"), z3.Int("j")
+        w = z3.Function("w_k", z3.IntSort(), z3.IntSort())
+        ctx.add_index(k, k + 1, j, z3.IntVal(0))
+        ctx.prove("base: no position below S(0) = 0", z3.Not(z3.And(0 <= j, j < S(0))))
+        ctx.assume(z3.And(0 <= k, k < n))
+        ctx.assume_forall("P(k) with witness w_k", lambda jj: z3.Implies(z3.And(0 <= jj, jj < S(k)),
+                          z3.And(0 <= w(jj), w(jj) < k, S(w(jj)) <= jj, jj < S(w(jj) + 1))))
+        wit = z3.If(j < S(k), w(j), k)
+        ctx.add_index(wit, wit + 1)
+        ctx.prove("step: P(k+1) with witness  w_k(j) if j < S(k) else k",
+                  z3.Implies(z3.And(0 <= j, j < S(k + 1)), z3.And(0 <= wit, wit < k + 1, S(wit) <= j, j < S(wit + 1))))
 
     def lemma_strictly_increasing_selfmap_is_identity(self, ctx):
         """f: [0,m) -> [0,m) strictly increasing  =>  f(i) >= i  (and hence f = id together with f(i) <= m-1-(m-1-i))."""
